@@ -16,6 +16,10 @@
 (*   ps, pe key codes that stand for the paste brackets                    *)
 (*   guard  a focus report is tried only when no key is still partial      *)
 (*   strict a byte that belongs to no SGR report ends the SGR scan         *)
+(*   utf8   the locale is UTF-8: bytes above 127 are decoded (a complete   *)
+(*          valid sequence is a rune; anything else waits for more input   *)
+(*          and is delivered byte by byte at the expiry); other character  *)
+(*          sets are C11's subject and end the prediction (st.hi)          *)
 (* guard and strict TRUE is the specification; FALSE is tcell as it was    *)
 (* found (kept so that TLC can refute it).                                 *)
 (*                                                                         *)
@@ -42,15 +46,16 @@ FocusParse(b) ==
     ELSE IF Len(b) = 2 THEN TPart
     ELSE IF b[3] \in {73, 79} THEN TDone(3) ELSE TNo
 
-\* ESC [ M b x y  - the three bytes after M are taken whatever they are
+\* ESC [ M b x y, or 0x9b M b x y  - the three bytes after M are taken whatever they are
 X11Parse(b) ==
-    IF b[1] # TESC THEN TNo
-    ELSE IF Len(b) = 1 THEN TPart
-    ELSE IF b[2] # 91 THEN TNo
-    ELSE IF Len(b) = 2 THEN TPart
-    ELSE IF b[3] # 77 THEN TNo
-    ELSE IF Len(b) < 6 THEN TPart
-    ELSE TDone(6)
+    LET k == IF b[1] = 155 THEN 1 ELSE 2 IN           \* length of the introducer
+    IF b[1] \notin {TESC, 155} THEN TNo
+    ELSE IF k = 2 /\ Len(b) = 1 THEN TPart
+    ELSE IF k = 2 /\ b[2] # 91 THEN TNo
+    ELSE IF Len(b) = k THEN TPart
+    ELSE IF b[k + 1] # 77 THEN TNo
+    ELSE IF Len(b) < k + 4 THEN TPart
+    ELSE TDone(k + 4)
 
 \* ESC [ < btn ; x ; y (M | m), numbers optionally negative and possibly empty
 \* q: [s |-> scanner state 0..5, dig, neg]
@@ -60,6 +65,7 @@ SgrScan(b, i, q, strict) ==
     ELSE LET c == b[i]
              go(q2) == SgrScan(b, i + 1, q2, strict)
          IN CASE c = TESC -> IF q.s # 0 THEN TNo ELSE go([q EXCEPT !.s = 1])
+              [] c = 155 -> IF q.s # 0 THEN TNo ELSE go([q EXCEPT !.s = 2])
               [] c = 91 -> IF q.s # 1 THEN TNo ELSE go([q EXCEPT !.s = 2])
               [] c = 60 -> IF q.s # 2 THEN TNo ELSE go([s |-> 3, dig |-> FALSE, neg |-> FALSE])
               [] c = 45 -> IF q.s \notin {3, 4, 5} \/ q.dig \/ q.neg THEN TNo ELSE go([q EXCEPT !.neg = TRUE])
@@ -86,11 +92,25 @@ ClipParse(b) ==
     ELSE IF ~TIsPrefix(ClipPrefix, b) THEN TNo
     ELSE ClipScan(b, Len(ClipPrefix) + 1, FALSE)
 
+\* length of the complete, valid UTF-8 sequence at the head of b (0: none - invalid or not all there yet)
+U8Len(b) ==
+    LET c == b[1]
+        n == IF c >= 194 /\ c <= 223 THEN 2 ELSE IF c >= 224 /\ c <= 239 THEN 3 ELSE IF c >= 240 /\ c <= 244 THEN 4 ELSE 0
+        lo == IF c = 224 THEN 160 ELSE IF c = 240 THEN 144 ELSE 128
+        hi == IF c = 237 THEN 159 ELSE IF c = 244 THEN 143 ELSE 191
+    IN IF n = 0 \/ Len(b) < n THEN 0
+       ELSE IF b[2] >= lo /\ b[2] <= hi /\ \A k \in 3..n : b[k] >= 128 /\ b[k] <= 191 THEN n ELSE 0
+U8Val(b, n) ==
+    CASE n = 2 -> (b[1] - 192) * 64 + (b[2] - 128)
+      [] n = 3 -> (b[1] - 224) * 4096 + (b[2] - 128) * 64 + (b[3] - 128)
+      [] OTHER -> (b[1] - 240) * 262144 + (b[2] - 128) * 4096 + (b[3] - 128) * 64 + (b[4] - 128)
+
 Alt(st) == IF st.esc THEN 4 ELSE 0
 Or4(m, st) == IF st.esc /\ (m \div 4) % 2 = 0 THEN m + 4 ELSE m
 
 \* the event of a raw control byte (NewEventKey turns it into the control key, Ctrl unless typeable)
-RawKey(c, st) == <<"key", c, c, IF st.esc THEN 4 ELSE IF c \in {8, 9, 13, 27} THEN 0 ELSE 2>>
+RawKey(c, st) == IF c > 127 THEN <<"key", 256, c, Alt(st)>>
+                 ELSE <<"key", c, c, IF st.esc THEN 4 ELSE IF c \in {8, 9, 13, 27} THEN 0 ELSE 2>>
 
 Emit(st, kind, n, ev, esc) ==
     [st EXCEPT !.buf = TDrop(@, n), !.esc = esc,
@@ -105,14 +125,20 @@ Collect(L, st, expire) ==
     LET b == st.buf
         keyC == {k \in L.keys : TIsPrefix(k.seq, b)}
         keyP == \E k \in L.keys : TIsPrefix(b, k.seq)
-        focTried == ~L.guard \/ ~keyP \/ expire
+        u8 == IF b[1] > 127 THEN U8Len(b) ELSE 0
+        runeP == b[1] > 127 /\ u8 = 0                        \* possibly the beginning of a character
+        focTried == ~L.guard \/ (~keyP /\ ~runeP) \/ expire
         foc == IF focTried THEN FocusParse(b) ELSE TNo
         x11 == IF L.mouse THEN X11Parse(b) ELSE TNo
         sgr == IF L.mouse THEN SgrParse(b, L.strict) ELSE TNo
         clp == IF L.clip THEN ClipParse(b) ELSE TNo
-        partial == keyP \/ foc.p \/ x11.p \/ sgr.p \/ clp.p
-    IN IF b[1] > 127 THEN [st EXCEPT !.hi = TRUE]
-       ELSE IF b[1] >= 32 THEN
+        partial == runeP \/ keyP \/ foc.p \/ x11.p \/ sgr.p \/ clp.p
+    IN IF b[1] > 127 /\ ~L.utf8 THEN [st EXCEPT !.hi = TRUE]
+       ELSE IF u8 > 0 THEN
+            \* U+FFFD is consumed without an event (the decoder's error value)
+            LET v == U8Val(b, u8) IN
+            Collect(L, Emit(st, "rune", u8, IF v = 65533 THEN <<>> ELSE <<"key", 256, v, Alt(st)>>, IF v = 65533 THEN st.esc ELSE FALSE), expire)
+       ELSE IF b[1] >= 32 /\ b[1] <= 127 THEN
             Collect(L, Emit(st, "rune", 1, <<"key", IF b[1] = 127 THEN 127 ELSE 256, b[1], Alt(st)>>, FALSE), expire)
        ELSE IF keyC # {} THEN
             LET k == CHOOSE k \in keyC : \A k2 \in keyC : Len(k2.seq) <= Len(k.seq)
@@ -139,7 +165,7 @@ FeedAll(L, st, chunks) ==
     ELSE FeedAll(L, Collect(L, [st EXCEPT !.buf = @ \o chunks[1]], FALSE), Tail(chunks))
 
 Decode(L, bytes) == FeedAll(L, TEmpty, <<bytes>>)
-Events(st) == LET o == SelectSeq(st.out, LAMBDA x : x.k # "alt") IN [i \in 1..Len(o) |-> o[i].ev]
+Events(st) == LET o == SelectSeq(st.out, LAMBDA x : x.ev # <<>>) IN [i \in 1..Len(o) |-> o[i].ev]
 
 ---------------------------------------------------------------------------
 (* What each kind of token may consume: the languages of the reports.      *)
@@ -147,8 +173,9 @@ Events(st) == LET o == SelectSeq(st.out, LAMBDA x : x.k # "alt") IN [i \in 1..Le
 Digits(s) == \A i \in 1..Len(s) : s[i] \in 48..57
 Num(s) == Digits(s) \/ (Len(s) >= 1 /\ s[1] = 45 /\ Digits(TDrop(s, 1)))
 SgrLang(s) ==
-    /\ Len(s) >= 6 /\ SubSeq(s, 1, 3) = <<27, 91, 60>> /\ s[Len(s)] \in {77, 109}
-    /\ LET body == SubSeq(s, 4, Len(s) - 1)
+    LET k == IF s[1] = 155 THEN 2 ELSE 3 IN          \* 0x9b < ... or ESC [ < ...
+    /\ Len(s) >= k + 3 /\ (SubSeq(s, 1, 3) = <<27, 91, 60>> \/ SubSeq(s, 1, 2) = <<155, 60>>) /\ s[Len(s)] \in {77, 109}
+    /\ LET body == SubSeq(s, k + 1, Len(s) - 1)
            semis == {i \in 1..Len(body) : body[i] = 59}
        IN /\ Cardinality(semis) = 2
           /\ LET i1 == CHOOSE i \in semis : \A j \in semis : i <= j
@@ -156,14 +183,14 @@ SgrLang(s) ==
              IN Num(SubSeq(body, 1, i1 - 1)) /\ Num(SubSeq(body, i1 + 1, i2 - 1)) /\ Num(SubSeq(body, i2 + 1, Len(body)))
 
 InLanguage(L, x) ==
-    CASE x.k = "rune" -> Len(x.src) = 1 /\ x.src[1] \in 32..127
+    CASE x.k = "rune" -> (Len(x.src) = 1 /\ x.src[1] \in 32..127) \/ (x.src[1] > 127 /\ U8Len(x.src) = Len(x.src))
       [] x.k = "key" -> \E k \in L.keys : k.seq = x.src
       [] x.k = "focus" -> x.src \in {<<27, 91, 73>>, <<27, 91, 79>>}
-      [] x.k = "x11" -> Len(x.src) = 6 /\ SubSeq(x.src, 1, 3) = <<27, 91, 77>>
+      [] x.k = "x11" -> (Len(x.src) = 6 /\ SubSeq(x.src, 1, 3) = <<27, 91, 77>>) \/ (Len(x.src) = 5 /\ SubSeq(x.src, 1, 2) = <<155, 77>>)
       [] x.k = "sgr" -> SgrLang(x.src)
       [] x.k = "clip" -> TIsPrefix(ClipPrefix, x.src)
       [] x.k \in {"esc", "alt"} -> x.src = <<27>>
-      [] x.k = "raw" -> Len(x.src) = 1 /\ x.src[1] < 32
+      [] x.k = "raw" -> Len(x.src) = 1 /\ (x.src[1] < 32 \/ x.src[1] > 127)
       [] OTHER -> FALSE
 
 RECURSIVE Concat(_)
